@@ -16,6 +16,7 @@ Matches(o) ==
   /\ o.tagged = out'.tagged /\ o.bye = out'.bye /\ o.cont = out'.cont /\ o.recent = out'.recent
   /\ o.calls = [i \in 1..Len(calls') |-> calls'[i].m]
   /\ o.state = state' /\ o.closed = closed'
+  /\ o.after = 0   \* commands pipelined behind a closing command (same segment) are never answered
   /\ ~closed' => o.caps = CapsOf(state', tls')
 
 Reset(r) ==
